@@ -9,6 +9,7 @@ shape.  A source change that alters a site re-opens its theorem.
 -/
 import Nitime.Model.C15
 import Nitime.Lemmas.C15
+import Nitime.Lemmas.C15Rate
 
 namespace Nitime.C15.Props
 open Nitime Nitime.C15
@@ -36,6 +37,14 @@ theorem rateOfInterval_one_ms :
     rateOfInterval .us (10 ^ 9) = 1000 ∧ rateOfInterval .ns (10 ^ 9) = 1000 ∧
     rateOfInterval .ps (10 ^ 9) = 1000 + 1 / 2 ^ 43 := by
   refine ⟨?_, ?_, ?_, ?_, ?_⟩ <;> decide +kernel
+
+/-- **the stored rate is the rate in Hz**: for every unit and every positive interval the binary64
+`sampling_rate` the constructor derives from a time-object interval (three divisions, one product,
+each rounded) is within 12 unit round-offs (12·2⁻⁵³ < 2⁻⁴⁹ relative) of 10¹²/Δ_ps -/
+theorem rateOfInterval_near_rateHz (u : TimeUnit) (a : Axis) (h : 0 < a.dt) :
+    |rateOfInterval u a.dt - rateHz a| ≤ 12 * (1 / 2 ^ 53) * |rateHz a| := by
+  have hf : 0 < cf u := by cases u <;> decide +kernel
+  exact C15.Lemmas.rate_near (cf u) hf a.dt h
 
 example : rateHz { t0 := 5, dt := 813270000, n := 64, unit := .ms } = 100000000 / 81327 := by
   simp only [rateHz]; norm_num
